@@ -169,25 +169,25 @@ type evCall struct {
 }
 
 type evCase struct {
-	ID      int    `json:"id"`
-	Suite   string `json:"suite"`
-	Nsp     string `json:"nsp"`
-	Sig     string `json:"sig"`   // event under test (names the handler signature)
-	Chain   []int  `json:"chain"` // per event middleware: 0 accept, 1 reject
-	WithAck bool   `json:"with_ack"`
-	ArgS    string `json:"arg_s"`
-	ArgN    int    `json:"arg_n"`
+	ID      int      `json:"id"`
+	Suite   string   `json:"suite"`
+	Nsp     string   `json:"nsp"`
+	Sig     string   `json:"sig"`   // event under test (names the handler signature)
+	Chain   []int    `json:"chain"` // per event middleware: 0 accept, 1 reject
+	WithAck bool     `json:"with_ack"`
+	ArgS    string   `json:"arg_s"`
+	ArgN    int      `json:"arg_n"`
 	Sent    []string `json:"sent"` // arguments the client emitted, same notation as evCall.Args
 
-	Mw       []evCall `json:"mw"`       // middleware calls in order
-	H        []evCall `json:"h"`        // handler calls in order
-	Errs     []string `json:"errs"`     // ServerSocket.OnError texts
-	Ack      []string `json:"ack"`      // acknowledgement payloads received by the client
-	Done     string   `json:"done"`     // "ok" | "timeout" | "noconnect"
-	AckDone  string   `json:"ack_done"` // "ok" | "timeout" | "n/a"
-	NH       int      `json:"nh"`       // handlers registered for the event
-	Retries  int      `json:"retries"`  // connection closed by the server before anything was observed
-	Note     string   `json:"note,omitempty"`
+	Mw      []evCall `json:"mw"`       // middleware calls in order
+	H       []evCall `json:"h"`        // handler calls in order
+	Errs    []string `json:"errs"`     // ServerSocket.OnError texts
+	Ack     []string `json:"ack"`      // acknowledgement payloads received by the client
+	Done    string   `json:"done"`     // "ok" | "timeout" | "noconnect"
+	AckDone string   `json:"ack_done"` // "ok" | "timeout" | "n/a"
+	NH      int      `json:"nh"`       // handlers registered for the event
+	Retries int      `json:"retries"`  // connection closed by the server before anything was observed
+	Note    string   `json:"note,omitempty"`
 
 	mu    sync.Mutex
 	term  chan struct{}
